@@ -542,6 +542,11 @@ func (fr *Frame) havocAssigns(assigns []Clause, scope map[string]*Val, old *Stat
 	}
 	for _, g := range ghosts {
 		fr.st.ghost[g] = vc.fresh("g_"+sanitize(g), "Int")
+		if g == "$writes" { // everything the writer model records about the last Write
+			for _, h := range []string{"$wbase", "$wlen", "$w0", "$wn", "$werr_t", "$werr_v"} {
+				fr.st.ghost[h] = vc.fresh("g_"+sanitize(h), "Int")
+			}
+		}
 	}
 	if allHeap {
 		return
